@@ -152,6 +152,12 @@ fn behave(kind: &str, key: String, w: usize, wc: usize) -> impl Future<Output = 
     }
 }
 
+/// outlines are expanded the way `parser::Basic` does it (the real `expand_examples`)
+fn expanded(f: gherkin::Feature) -> gherkin::Feature {
+    use cucumber::feature::Ext as _;
+    f.expand_examples().expect("outline expands")
+}
+
 fn step_fn(w: &mut Wd, ctx: Context) -> LocalBoxFuture<'_, ()> {
     let key = ctx.step.value.clone();
     let (id, c) = (w.id, w.counter);
@@ -286,7 +292,7 @@ fn inner(lines: Vec<Vec<String>>, raw: String) -> Vec<String> {
         }
         if toks[0] == "feature" || toks[0] == "parse_error" {
             if let Some((late, text)) = cur.take() {
-                items.push((late, Some(Ok(parse_feature(&text)))));
+                items.push((late, Some(Ok(expanded(parse_feature(&text))))));
             }
             let late = kv(&toks, "late").map_or(0, |v| v.parse().unwrap());
             if toks[0] == "feature" {
@@ -300,7 +306,7 @@ fn inner(lines: Vec<Vec<String>>, raw: String) -> Vec<String> {
         }
     }
     if let Some((late, text)) = cur.take() {
-        items.push((late, Some(Ok(parse_feature(&text)))));
+        items.push((late, Some(Ok(expanded(parse_feature(&text))))));
     }
     // `parser_end late=<n>`: the stream reports its end only after n more Pending polls
     if let Some(l) = lines.iter().find(|l| l[0] == "parser_end") {
@@ -355,6 +361,13 @@ fn inner(lines: Vec<Vec<String>>, raw: String) -> Vec<String> {
                     } else {
                         runner::ScenarioType::Concurrent
                     }
+                };
+                r = r.which_scenario(custom);
+            }
+            if kv(l, "which").as_deref() == Some("name_serial") {
+                // a custom classifier that looks at what a scenario IS (its expanded name), not at its tags
+                let custom: runner::basic::WhichScenarioFn = |_, _, s| {
+                    if s.name.contains("serial") { runner::ScenarioType::Serial } else { runner::ScenarioType::Concurrent }
                 };
                 r = r.which_scenario(custom);
             }
